@@ -24,4 +24,10 @@ GNext == \/ \E p \in Insts, a \in Elems : Find(p, a) /\ Log(Op("find", p, a, 0, 
          \/ \E p \in Insts : Clone(p) /\ Log(Op("clone", p, 0, 0, <<>>), <<>>)
 GSpec == GInit /\ [][GNext]_<<vars, hist>>
 GQueries == {<<0,1,2>>, <<2,0,1,0>>}
+\* histories instead of transitions (cfg without VIEW): EVERY sequence of operations up to a length bound is a case, also
+\* those whose steps do not change the machine's state (a find on a root, a union inside a class) - an implementation may
+\* carry state the machine does not have (a cache of its last answer)
+Hist3 == Len(hist) <= 3
+Hist4 == Len(hist) <= 4
+HQueries == {<<0,1,2>>}
 =============================================================================
